@@ -73,6 +73,7 @@ THEOREMS = [
     "Jinns.Domain.sliceGuard_ok_iff",
     "Jinns.Domain.holdsPoints_of_box",
     "Jinns.Domain.holdsTimes_of_interval",
+    "Jinns.Domain.ode_history_holds",
 ]
 LEAN_MODULES = ["JinnsProofs.C08"]
 RULE = ("cases = (generator kind, method, dtype, domain, counts, batch sizes, number of get_batch calls) or constructor "
@@ -143,7 +144,7 @@ def gen_cases(rng, tier):
     # ---- stationary
     for dim in (1, 2, 3):
         for method in ("uniform", "grid"):
-            reps = 6 if deep else 3
+            reps = 12 if deep else 3
             for _ in range(reps):
                 if method == "grid" and dim == 2:
                     n = rng.choice([1, 4, 9, 16, 25, 36, 49, 64])
@@ -166,7 +167,7 @@ def gen_cases(rng, tier):
     for dim in (1, 2):
         for cart in (True, False):
             for method in ("uniform", "grid"):
-                for _ in range(3 if deep else 1):
+                for _ in range(6 if deep else 1):
                     n = rng.choice([4, 9, 16]) if method == "grid" and dim == 2 else rng.choice([2, 3, 5, 8, 12])
                     nt = rng.choice([2, 3, 5, 8, 12])
                     bt = rng.randint(1, min(n, nt) if not cart else nt)
